@@ -43,7 +43,7 @@ def args_value(I, cfg, flt, retain=None):
     any_ = mk('TruthTableEntry', 2, [])
     known = dict(
         input=option(Str(cfg['input']) if cfg.get('input') else None),
-        parsetree=option(), dot=option(),
+        parsetree=option(Str(cfg['parsetree'])) if cfg.get('parsetree') else option(), dot=option(Str(cfg['dot'])) if cfg.get('dot') else option(),
         truthtable=bool(cfg.get('truthtable')), model=bool(cfg.get('model')), vars=bool(cfg.get('vars')),
         filter=flt if flt is not None else any_, retain_choices=retain if retain is not None else any_,
         benchmark=option(cfg['benchmark']) if cfg.get('benchmark') is not None else option(),
@@ -119,6 +119,28 @@ def install_main_hooks(I, w, cfg, sk, st):
             return mk('Result', 1, [Opaque('io::Error(not found)')])
         return mk('Result', 0, [Reader('file:' + p.s)])
     T[('File', None, 'open')] = file_open
+
+    def file_create(I2, fr, a, ck):
+        p = I2.peel_all(a[0], fr)
+        if not (isinstance(p, Str) and isinstance(p.s, str)):
+            raise Unsupported('File::create on a path that is not a concrete string')
+        return mk('Result', 0, [Reader('create:' + p.s)])
+    T[('File', None, 'create')] = file_create
+
+    def render(kind):
+        def rec(I2, fr, a):
+            # -d / -p: the graph descriptions themselves are verified by the C14 units (dotcore.py); here main's call
+            # is recorded: which graph object, into which file
+            gobj = I2.peel_all(a[0], fr)
+            tag = reader_tag(I2, fr, a[1])
+            log = fr.mem.get(STDOUT, Seq(()))
+            m = dict(fr.mem)
+            m[STDOUT] = Seq(log.items + (mk_tuple([Str('DOT'), Str(kind), gobj, Str(tag or '?')]),))
+            fr.mem = m
+            return mk('Result', 0, [UNIT])
+        return rec
+    H[('BDDGraph', None, 'render_dot')] = render('bdd')
+    H[('SymbolicParseTree', None, 'render_dot')] = render('parse')
     T[(None, None, 'stdin')] = lambda I2, fr, a, ck: Reader('stdin')
 
     def bufreader_new(I2, fr, a, ck):
@@ -340,6 +362,10 @@ def _is_vars(x):
     return isinstance(x, Adt) and x.ty == 'tuple' and isinstance(x.alts[0][1][0], Str) and x.alts[0][1][0].s == 'VARS'
 
 
+def _is_dot(x):
+    return isinstance(x, Adt) and x.ty == 'tuple' and isinstance(x.alts[0][1][0], Str) and x.alts[0][1][0].s == 'DOT'
+
+
 def _line_eq(item, want):
     """Bool: the recorded println item is the text `want`"""
     if isinstance(item, str):
@@ -398,12 +424,14 @@ def unit_main(cfg, shape, k, opts):
         admitted = gor(fsel[2], gand(fsel[0], val), gand(fsel[1], gnot(val)))
     else:
         admitted = True
-    bad_ret = bad_shape = bad_r = bad_hdr = bad_count = bad_val = bad_model = bad_v = False
+    bad_ret = bad_shape = bad_r = bad_hdr = bad_count = bad_val = bad_model = bad_v = bad_dot = False
     for r in rets:
         v = r.value
         if isinstance(v, Adt) and v.ty == 'Result':
             bad_ret = gor(bad_ret, gand(r.guard, v.alts[1][0] if 1 in v.alts else False))
         log = list(r.mem[STDOUT].items)
+        dots = [x for x in log if _is_dot(x)]
+        log = [x for x in log if not _is_dot(x)]
         hpos = [i for i, x in enumerate(log) if _is_header(x)]
         vpos = [i for i, x in enumerate(log) if _is_vars(x)]
         rowpos = [i for i, x in enumerate(log) if isinstance(x, Adt) and x.ty == 'tuple' and not _is_header(x) and not _is_vars(x)]
@@ -418,9 +446,36 @@ def unit_main(cfg, shape, k, opts):
             ok_shape = False
         if len(vpos) != (1 if cfg.get('vars') else 0) or any(p < max([-1] + hpos + rowpos + rl) for p in vpos):
             ok_shape = False
+        want_dots = [kind for kind, opt in (('parse', 'parsetree'), ('bdd', 'dot')) if cfg.get(opt)]
+        if [x.alts[0][1][1].s for x in dots] != want_dots:
+            ok_shape = False
         if not ok_shape:
             bad_shape = gor(bad_shape, r.guard)
             continue
+        for x in dots:
+            _, kind_, gobj, tag = x.alts[0][1]
+            if kind_.s == 'parse':
+                fields_ = I.defs.structs['SymbolicParseTree']
+                tree_ = gobj.alts[0][1][fields_.index('internal_tree')]
+                okd = gand(Veq().eq(tree_, st['tree']), tag.s == 'create:' + cfg['parsetree'])
+            else:
+                fields_ = I.defs.structs['BDDGraph']
+                root_ = gobj.alts[0][1][fields_.index('root')]
+                flt_ = gobj.alts[0][1][fields_.index('filter')]
+                rt = w.tt_of(root_)
+                if rt is None:
+                    sem = Sem(w)
+                    rt = [sem.eval(root_, sg) for sg in all_assignments(k)]
+                if cfg.get('model'):
+                    okf = gand(gand(*[gor(gnot(a), b) for a, b in zip(rt, exp)]), beq(gor(*rt), sat))
+                elif rsel is not None:
+                    okf = gor(gand(rsel[2], *[beq(a, b) for a, b in zip(rt, exp)]), gand(rsel[0], *[gor(gnot(b), a) for a, b in zip(rt, exp)]),
+                              gand(rsel[1], *[gor(gnot(a), b) for a, b in zip(rt, exp)]))
+                else:
+                    okf = gand(*[beq(a, b) for a, b in zip(rt, exp)])
+                want_f = flt if flt is not None else mk('TruthTableEntry', 2, [])
+                okd = gand(okf, Veq().eq(flt_, want_f), tag.s == 'create:' + cfg['dot'])
+            bad_dot = gor(bad_dot, gand(r.guard, gnot(okd)))
         # -r: the occurring variables in variable order, one per line
         if cfg.get('export_ordering'):
             okr = False
@@ -553,6 +608,8 @@ def unit_main(cfg, shape, k, opts):
             ask('-m: every assignment of a True row satisfies the formula, and a True row exists iff the formula is satisfiable', bad_model)
         else:
             ask('the result column of the covering row is the value of the formula' + (' (-c True: implied by it, -c False: implies it)' if rsel is not None else ''), bad_val)
+    if cfg.get('dot') or cfg.get('parsetree'):
+        ask('-d / -p: the graph handed to the DOT renderer is the evaluated diagram with the filter / the parsed tree, written to the named file', bad_dot)
     if cfg.get('vars'):
         ask('-v: print_true_vars_recursive is called once, after everything else, with the diagram of the formula (of a model of it under -m, of its -c reduct under -c), all-Any entries and the free-variable names', bad_v)
     res.update(interp_summary(I))
@@ -580,6 +637,10 @@ def cfg_text(cfg):
         out.append('-c <any>')
     if cfg.get('benchmark') is not None:
         out.append('-b %d' % cfg['benchmark'])
+    if cfg.get('dot'):
+        out.append('-d <file>')
+    if cfg.get('parsetree'):
+        out.append('-p <file>')
     if cfg.get('ordering'):
         out.append('-o <%s>' % cfg['files'][cfg['ordering']].replace('\n', '\\n'))
     return ' '.join(out)
@@ -620,6 +681,12 @@ def cli_run(case, with_ordering):
         args += ['-b', str(cfg['benchmark'])]
     if case.get('retain'):
         args += ['-c', case['retain']]
+    outfiles = {}
+    for opt, flag in (('dot', '-d'), ('parsetree', '-p')):
+        if cfg.get(opt):
+            outfiles[opt] = os.path.join(d, opt + '.dot')
+            args += [flag, outfiles[opt]]
+    case['_outfiles'] = outfiles
     names = case['names']
     shown = list(args)
     if case.get('ordering_text') is not None:
@@ -659,7 +726,9 @@ def judge_cli(case, with_ordering):
     tt = [bool(x) for x in tt]
     fr = fsem.free_atoms(tree, k)
     shown, rc, out, err, order = cli_run(case, with_ordering)
-    case.setdefault('cli', []).append(dict(args=shown, rc=rc, stdout=(out or '')[-1200:], stderr=(err or '')[-400:]))
+    import os
+    written = {opt: (open(f).read() if os.path.exists(f) else '') for opt, f in case.pop('_outfiles', {}).items()}
+    case.setdefault('cli', []).append(dict(args=shown, rc=rc, stdout=(out or '')[-1200:], stderr=(err or '')[-400:], files={o: t[-1500:] for o, t in written.items()}))
     if rc is None:
         return True, 'hang: no answer within the time limit'
     if rc != 0:
@@ -716,6 +785,17 @@ def judge_cli(case, with_ordering):
                     return True, 'row %s reports %s, the formula is %s under %s' % (cover[0], cover[0][-1], v, sg)
         if cfg.get('model') and anytrue != any(tt):
             return True, '-m: a True row is %s but the formula is %s' % ('printed' if anytrue else 'missing', 'satisfiable' if any(tt) else 'unsatisfiable')
+    if 'parsetree' in written:
+        import dotcore
+        problem = dotcore.check_parse_dot(written['parsetree'], case['tree'], names)
+        if problem:
+            return True, '-p: ' + problem
+    if 'dot' in written:
+        import dotcore
+        rel = 'model' if cfg.get('model') else {'True': 'implied', 'False': 'implies'}.get(case.get('retain') or 'Any', 'eq')
+        problem = dotcore.check_bdd_dot(written['dot'], names, tt, flt, rel)
+        if problem:
+            return True, '-d: ' + problem
     if cfg.get('vars'):
         vl = [l for l in lines if l.endswith(';')]
         for j in range(1 << k):
@@ -746,7 +826,7 @@ def replay_cli(rep, pid, name, cex):
         v, desc, wo = hit[0]
         shown = case['cli'][-1]['args']
         kind = 'panic' if desc.startswith('panic') else ('hang' if desc.startswith('hang') else 'wrong')
-        flags = '+'.join(sorted(x for x in ('truthtable', 'vars', 'model', 'export_ordering', 'benchmark', 'ordering', 'input', 'retain') if case['cfg'].get(x) not in (None, False)))
+        flags = '+'.join(sorted(x for x in ('truthtable', 'vars', 'model', 'export_ordering', 'benchmark', 'ordering', 'input', 'retain', 'dot', 'parsetree') if case['cfg'].get(x) not in (None, False)))
         rep.violations.append(('cli:%s:%s' % (flags, kind), '`rsbdd %s`: %s' % (' '.join(shown), desc), path))
         print('CONFIRMED rsbdd %s: %s' % (' '.join(shown), desc))
     else:
@@ -842,4 +922,14 @@ def jobs_nopanic(quick):
     for text, nm in [('b a', 'ab'), ('', 'a'), ('a a a', 'ab')]:
         cfg = dict(E, truthtable=True, vars=True, ordering='o.txt', files={'o.txt': text}, names=list(nm))
         js.append(('main [%s] sketch %r over %s' % (cfg_text(cfg), B2, list(nm)), unit_main, (cfg, B2, len(nm), {})))
+    return js
+
+
+def jobs_dot(quick):
+    """C14 through the command line: -d / -p hand the right graph to the renderer"""
+    js = []
+    for c, sh, k in [(dict(dot='d.dot', filter='symbolic'), B2, 3), (dict(parsetree='p.dot'), Q1, 3), (dict(dot='d.dot', parsetree='p.dot', truthtable=True, model=True), B2, 2),
+                     (dict(dot='d.dot', retain='symbolic'), B2, 2)]:
+        cfg = dict(E, **c)
+        js.append(('main [%s] sketch %r k=%d' % (cfg_text(cfg), sh, k), unit_main, (cfg, sh, k, {})))
     return js
